@@ -98,6 +98,35 @@ def check_case(case):
             viol("pairwise_dict", f"pair ({a},{b}): recorded {got}, margin by definition {exp}")
         if g.head2head_count(a, b) - g.head2head_count(b, a) != m:
             viol("head2head_count", f"({a},{b}): {g.head2head_count(a, b)} - {g.head2head_count(b, a)} != {m}")
+    # explicit ballot_length shorter than the candidate list: ballots that already have that many entries are not filled;
+    # a pair none of whose members such a ballot lists gets nothing from it
+    if len(cands) >= 3 and (hash(str(case)) & 1):
+        Lb = len(cands) - 2 if len(cands) >= 4 else len(cands) - 1
+        try:
+            g2 = PairwiseComparisonGraph(prof, ballot_length=Lb)
+            out["evals"] += 1
+            # only pairs of candidates the truncated graph knows about (a candidate no ballot lists is not part of it)
+            for a, b in itertools.combinations([c for c in cands if c in g2.candidates], 2):
+                e = F(0)
+                for r, w in Wd.items():
+                    pos = {c: i for i, s in enumerate(r) for c in s}
+                    if a in pos and b in pos:
+                        e += w if pos[a] < pos[b] else -w
+                    elif a in pos:
+                        e += w
+                    elif b in pos:
+                        e -= w
+                    elif len(r) < Lb:
+                        pass  # both unlisted on a filled ballot: split evenly
+                got = g2.head2head_count(a, b) - g2.head2head_count(b, a)
+                if got != e:
+                    viol("head2head_count[ballot_length]", f"ballot_length={Lb}, pair ({a},{b}): {got} != {e}")
+                rec = {k: v for k, v in g2.pairwise_dict.items() if set(k) == {a, b}}
+                want = {(a, b): e} if e > 0 else ({(b, a): -e} if e < 0 else {(a, b): F(0), (b, a): F(0)})
+                if rec != want:
+                    viol("pairwise_dict[ballot_length]", f"ballot_length={Lb}, pair ({a},{b}): recorded {rec}, by definition {want}")
+        except Exception as ex:
+            viol(f"PairwiseComparisonGraph[ballot_length]:{type(ex).__name__}", repr(ex))
     exp_t = smith_tiers(cands, mg)
     got_t = [set(t) for t in g.dominating_tiers()]
     if got_t != exp_t:
